@@ -295,7 +295,11 @@ func (fr *Frame) argTerm(a ssa.Value) Term {
 		return t
 	}
 	if lv, ok := fr.lvals[a]; ok {
-		return Term{fr.vc.addrTerm(lv), "Int", a.Type()}
+		// The address of an element or field is never nil: forming it (IndexAddr / FieldAddr) has its
+		// own bounds and nil-dereference obligations at the point where it is formed.
+		at := fr.vc.addrTerm(lv)
+		fr.vc.assumeIf(fr.curReach, fmt.Sprintf("(not (= %s 0))", at))
+		return Term{at, "Int", a.Type()}
 	}
 	if g, ok := a.(*ssa.Global); ok {
 		return Term{fr.vc.addrTerm(&LVal{Comp: fr.vc.globalComp(g)}), "Int", a.Type()}
